@@ -570,12 +570,13 @@ class C16(core.Property):
     hypotheses = [
         "policy theorems: well-formed histories (on_insert only for a key that is not tracked — the protocol CachedStore._cache_put follows; proved at the store level)",
         "store theorems: capacity ≥ 1 (the constructor rejects less), policy made by Pol.ofName",
+        "soft_ttl_age_at_return(_within): repaired variant, soft_ttl ≤ hard_ttl, operation ids of the schedule pairwise distinct (tStartIds as).Nodup; clock readings arbitrary (also non-monotone)",
         "writeback_reaches_store, read_after_write_all_interleavings, read_after_write_sequential, soft_ttl_age_le_hard: repaired variant (fixes/C16-*.diff); soft_ttl ≤ hard_ttl (constructor)",
         "read_after_write_ordered_all_interleavings: write-through, repaired variant, Schedule ops as, and lateOk [] as — no resume of an id before its start (a spurious earlier resume would move the judge's issue index of that operation; observed runs never contain one); write-back stores: read_after_write_ordered_writeback_false (decided counterexample, the model being the code as it is)",
         "read_after_write_all_interleavings: Schedule ops as — operation ids unique, every first segment in the schedule is that of its table entry (a flush with any iteration order of the dirty set), no id started twice, put values pairwise distinct; resumes of ids with nothing pending are allowed anywhere (they are no-ops)",
     ]
     partial_theorems = {
-        "HappyModel.C16.soft_ttl_age_le_hard": "age is measured when the serve decision is taken (issue time of a hit, end of the wait of a coalesced request), not when the generator returns cache_read_latency later",
+        "HappyModel.C16.soft_ttl_age_le_hard": "age is measured when the serve decision is taken (issue time of a hit, end of the wait of a coalesced request); the return-time form is soft_ttl_age_at_return (age at return < hard_ttl + the time between the operation's first and returning segment, for every schedule with distinct operation ids) and soft_ttl_age_at_return_within (< hard_ttl + d when every operation returns within d of its first segment). Remaining gap: that d = cache_read_latency for a hit is the engine's doing (the model takes the clock reading of every segment as an input) — it is the observed schedule, not a theorem",
     }
 
     # ------------------------------------------------------------------ generation
@@ -1209,6 +1210,8 @@ THEOREMS = [
     "HappyModel.C16.dirty_evicted_lost_judged",
     "HappyModel.C16.soft_ttl_age_le_hard",
     "HappyModel.C16.soft_ttl_expired_served_current",
+    "HappyModel.C16.soft_ttl_age_at_return",
+    "HappyModel.C16.soft_ttl_age_at_return_within",
     "HappyModel.C16.soft_ttl_size_le_capacity",
     "HappyModel.C16.soft_ttl_lru_keys_eq_cache_keys",
 ]
